@@ -284,6 +284,7 @@ class HMerge(common.Harness):
         other = T.EDITIONS_LOOKUP["F.2d"][0]
         twin = M.Edition(M.Reporter("Other Rep.", "Other reporter", "state", "reporters"), us.short_name, None, None)
         pool = [nom, us, other, twin]
+        self.pool = pool
         self.pool_names = ["nominative", "U.S.", "F.2d", "twin-of-U.S.(same short_name, other reporter)"]
 
         def pick(tag):
@@ -293,25 +294,33 @@ class HMerge(common.Harness):
                     out.append(e)
             return tuple(out)
 
-        self.cfg = {"a_exact": pick("ae"), "b_exact": pick("be")}
-        if not self.cfg["a_exact"] and not self.cfg["b_exact"]:
+        def pickv(tag):
+            # variation candidates: drawn from the two ordinary editions
+            out = []
+            for j, e in ((1, us), (2, other)):
+                if eng.choose([z3.Bool(f"{tag}{j}"), z3.Not(z3.Bool(f"{tag}{j}"))]) == 0:
+                    out.append(e)
+            return tuple(out)
+
+        self.cfg = {"a_exact": pick("ae"), "b_exact": pick("be"), "a_var": pickv("av"), "b_var": pickv("bv")}
+        if not (self.cfg["a_exact"] or self.cfg["a_var"]) or not (self.cfg["b_exact"] or self.cfg["b_var"]):
             raise symex.Infeasible()
-        mk = lambda ed: M.CitationToken("1 X 1", 0, 5, groups={"volume": "1", "reporter": "X", "page": "1"}, exact_editions=ed)
+        mk = lambda ed, var: M.CitationToken("1 X 1", 0, 5, groups={"volume": "1", "reporter": "X", "page": "1"}, exact_editions=ed, variation_editions=var)
         res = []
         for ident in (True, False):
             self.identity_order = ident
-            a, b = mk(self.cfg["a_exact"]), mk(self.cfg["b_exact"])
+            a, b = mk(self.cfg["a_exact"], self.cfg["a_var"]), mk(self.cfg["b_exact"], self.cfg["b_var"])
             merged = self.interp.call(M.CitationToken.merge, (a, b), {})
             nomin = self.interp.call(T.token_is_from_nominative_reporter, (a,), {}) if (a.exact_editions or a.variation_editions) else None
             c = M.FullCaseCitation(a, 0, exact_editions=a.exact_editions, variation_editions=a.variation_editions)
             c.groups = {"volume": "1", "reporter": "X", "page": "1"}
             h = self.interp.call(M.ResourceCitation.__hash__, (c,), {})
-            res.append((merged is not None, nomin, h, set(id(e) for e in a.exact_editions)))
+            res.append((merged is not None, nomin, h, set(id(e) for e in a.exact_editions), set(id(e) for e in a.variation_editions)))
         return res
 
     def witness(self, m):
         names = {id(e): n for e, n in zip([None] * 0, [])}
-        return {"a_exact": [e.short_name + "/" + e.reporter.short_name for e in self.cfg["a_exact"]], "b_exact": [e.short_name + "/" + e.reporter.short_name for e in self.cfg["b_exact"]]}
+        return {k: [self.pool_names[[id(x) for x in self.pool].index(id(e))] for e in v] for k, v in self.cfg.items()}
 
     def describe(self, kind, out):
         return self.witness(None)
@@ -319,11 +328,12 @@ class HMerge(common.Harness):
     def judge(self, kind, out):
         if kind == "exc":
             return [self.check("C15:merge:no_exception:" + type(out).__name__, False, self.witness)]
-        (m1, n1, h1, s1), (m2, n2, h2, s2) = out
+        (m1, n1, h1, s1, v1), (m2, n2, h2, s2, v2) = out
         union = {id(e) for e in self.cfg["a_exact"]} | {id(e) for e in self.cfg["b_exact"]}
+        unionv = {id(e) for e in self.cfg["a_var"]} | {id(e) for e in self.cfg["b_var"]}
         fs = [
-            self.check("C16:merged_candidate_editions_are_the_union_of_both_tokens", z3.BoolVal((not m1) or s1 == union), self.witness),
-            self.check("C15:merged_edition_set_independent_of_order", z3.BoolVal(m1 == m2 and s1 == s2), self.witness),
+            self.check("C16:merged_candidate_editions_are_the_union_of_both_tokens", z3.BoolVal((not m1) or (s1 == union and v1 == unionv)), self.witness),
+            self.check("C15:merged_edition_set_independent_of_order", z3.BoolVal(m1 == m2 and s1 == s2 and v1 == v2), self.witness),
             self.check("C15:nominative_decision_independent_of_order", z3.BoolVal(n1 == n2), self.witness),
             self.check("C15:value_hash_independent_of_order", z3.BoolVal(bool(h1 == h2)), self.witness),
         ]
@@ -536,7 +546,7 @@ def merge_sweep():
 def check(rep):
     quick = rep.tier == "quick"
     K = 2 if quick else 3
-    rep.bounds.append(f"(a) 2 abstract extractors (unfiltered / case-sensitive / case-insensitive) each yielding one candidate token of symbolic kind (5 kinds) and offsets" + ("" if quick else ", and 3 extractors over 3 token kinds") + ", every iteration order of every set; (b) merge of two citation tokens whose edition tuples are drawn from a pool of 4 editions (nominative, two ordinary, one sharing a short_name with another reporter), every de-duplication order")
+    rep.bounds.append(f"(a) 2 abstract extractors (unfiltered / case-sensitive / case-insensitive) each yielding one candidate token of symbolic kind (5 kinds) and offsets" + ("" if quick else ", and 3 extractors over 2 token kinds") + ", every iteration order of every set; (b) merge of two citation tokens whose edition tuples are drawn from a pool of 4 editions (nominative, two ordinary, one sharing a short_name with another reporter), every de-duplication order")
     rep.outside += ["thread schedules (no usable concurrency model of CPython here; the shared writes are the idempotent _compiled_regex and _db caches)", "cross-call history beyond the frame condition on the tokenizer object (tokenize leaves its attributes unchanged) and the call-sequence replay", "order of the candidate-edition tuples themselves (compared as sets)"]
     rep.stubs += ["set(...): iteration order is an arbitrary permutation (this is the PYTHONHASHSEED variable)", "ahocorasick automata: report every registered word that occurs (occurrence fixed true)", "Tokenizer.append_text: its summary (see C12)", "hash_sha256: injective"]
     findings = []
@@ -545,8 +555,8 @@ def check(rep):
     findings += [("tok", f) for f in agg["findings"]]
     tot = dict(agg["verdicts"])
     if not quick:
-        # three extractors over three token kinds (all five kinds at K = 3 did not finish in an hour)
-        agg = common.explore_split("vf.harness.c15", {"part": "tok", "K": 3, "kinds": ["supra", "section", "cite_us"]}, depth=5, timeout=3 * 3600)
+        # three extractors over two token kinds (five kinds at K = 3 did not finish in an hour, three kinds not in 75 minutes)
+        agg = common.explore_split("vf.harness.c15", {"part": "tok", "K": 3, "kinds": ["supra", "cite_us"]}, depth=5, timeout=3 * 3600)
         rep.merge_explore("tokenize_under_permuted_sets_3", agg)
         findings += [("tok", f) for f in agg["findings"]]
         for k, v in agg["verdicts"].items():
